@@ -68,6 +68,8 @@ class Clock:
         return self.now
 
     def sleep(self, dt):
+        for hook in list(getattr(self, 'sleep_hooks', ())):
+            hook(dt)          # (things of the world that happen "as soon as the runner sleeps")
         s = self.sched
         if s is None or not s.active:
             self.now += dt
